@@ -452,6 +452,15 @@ class Transaction:
                 # Known-pre-commit-point failure - safe to clean up written files
                 self._rollback()
                 raise e
+            except BaseException:
+                # KeyboardInterrupt / SystemExit arrive asynchronously: they can
+                # land AFTER the commit point (e.g. while the lock is released,
+                # before _finish_committed runs). The outcome is unknown here, so
+                # treat it like an ambiguous commit: end the transaction but keep
+                # every written file. Otherwise __exit__ / the caller's rollback()
+                # would delete data files a committed snapshot references.
+                self._rollback(delete_files=False)
+                raise
 
         # This line should not be reached if max_retries > 0, but added for completeness
         self._rollback()
